@@ -47,6 +47,8 @@ def runQuery (c : Cls) (q : String) : String :=
     | some d => showRes toString (generateRounds c d) | none => bad
   | ["gen", d, fv] => match d.toNat?, fv.toInt? with
     | some d, some fv => showRes toString (generateRounds c d fv) | _, _ => bad
+  | ["genc", d, fv] => match d.toNat?, fv.toInt? with
+    | some d, some fv => showRes toString (generateChecked c d fv) | _, _ => bad
   | ["needs", r] => match r.toInt? with
     | some r => "ok " ++ (if needsUpdate c r then "1" else "0") | none => bad
   | ["clip", r] => match r.toInt? with
